@@ -178,6 +178,10 @@ def check_input(chk, rx, spec, bursts_per_pos, stride, budget=None):
         chk.rng.shuffle(others)
         pats = singles + others[:max(0, budget - len(singles))]
     cases = [(kind, bits, flip_bits(data, bits)) for kind, bits in pats]
+    nb = len(cases)
+    cases = [c for c in cases if not G.bomb_screen(c[2])]
+    if nb != len(cases):
+        chk.count('IN:not run: uint >= 2^26 in a byte-string slot (BstrField.m2i would allocate that many octets)', nb - len(cases))
     gates = chk.driver([{'op': 'bp.gate', 'hex': c[2].hex(), 'own': own} for c in cases])
     crcs = []
     for (kind, bits, bad), g in zip(cases, gates):
@@ -326,7 +330,9 @@ def run(chk):
     chk.prove('DtnVerif.Props.C08')
     rng = chk.rng
     quick = chk.tier == 'quick'
+    G.limit_memory()
     rx = Rx()
+    t_in = 110 if quick else 1000
     # ---- output
     n_out = 300 if quick else 4000
     specs = [G.gen_bundle(rng, i, crc_mode=('update' if i % 4 else 'given'), force_crc=(i % 3 != 0)) for i in range(n_out)]
@@ -338,7 +344,8 @@ def run(chk):
     total = 0
     i = 0
     tries = 0
-    while i < n_in and tries < 10 * n_in:
+    t_start = chk.elapsed()
+    while i < n_in and tries < 10 * n_in and chk.elapsed() - t_start < t_in:
         tries += 1
         spec = G.gen_bundle(rng, rng.randrange(512), crc_mode='update', force_crc=True, max_time=2 ** 47)
         # keep corrupted inputs small enough to enumerate every bit
